@@ -247,7 +247,9 @@ package types
 //@   (ite (isMsgRegisterBeacon m) (beacon.Params.FeeRegister p)
 //@   (ite (isMsgRecordBeaconTimestamp m) (beacon.Params.FeeRecord p)
 //@   (ite (isMsgPurchaseBeaconStateStorage m) (* (beacon.Params.FeePurchaseStorage p) (beacon.MsgPurchaseBeaconStateStorage.Number (asMsgPurchaseBeaconStateStorage m))) 0))))
-//@ (define-fun-rec beaSumFee ((ms (Slice Iface)) (n Int) (p beacon.Params)) Int
-//@   (ite (<= n 0) 0 (+ (beaSumFee ms (- n 1) p) (beaFeeOf (select (sl.arr ms) (- n 1)) p))))
+//@ ; sum of the fees of the first n messages: recursive specification function, unfolded once at every use site
+//@ (declare-fun beaSumFee ((Array Int Iface) Int beacon.Params) Int)
+//@ (define-fun beaSumFee.def ((ms (Array Int Iface)) (n Int) (p beacon.Params)) Int
+//@   (ite (<= n 0) 0 (+ (beaSumFee ms (- n 1) p) (beaFeeOf (select ms (- n 1)) p))))
 //@ (define-fun beaTx ((t Iface)) Bool (exists ((j Int)) (and (<= 0 j) (< j (sl.len (txMsgs t))) (isBeaMsg (select (sl.arr (txMsgs t)) j)))))
 //@ end
